@@ -55,6 +55,7 @@ static std::vector<Op> buildAlphabet(const std::string& name, Limits& L, const s
         for (int r : {0, 1}) { A.push_back(opRegBuild(r, r)); A.push_back(opRegSubmit(r, "app", L)); A.push_back(opRegMut(r, "px")); }
         A.push_back(opRegSubmit(0, "0", L)); A.push_back(opRegSubmit(0, "n+1", L)); A.push_back(opRegMut(0, "ch")); A.push_back(opRegExt(0, L)); A.push_back(opRegCopy(1, 0));
         A.push_back(opRegHold(0)); A.push_back(opRegMutHeld(0));
+        A.push_back(opStoredAddSubframe(0)); A.push_back(opStoredAddSubframe(1)); A.push_back(opRegAddSubframe(0));
         for (size_t f : {0, 1, 2}) { A.push_back(opEditStored(f, "px")); }
         A.push_back(opEditStored(1, "ch"));
         for (auto t : {"app", "n", "n+2", "last"}) A.push_back(opSubmitStored(0, t, L));
@@ -82,6 +83,7 @@ static std::vector<Op> buildAlphabet(const std::string& name, Limits& L, const s
         A.push_back(opParam("ANALOG", "X", pv("s22"), "d20", true, L)); A.push_back(opParam("NEWG", "X", pv("i7"), "d20", true, L)); A.push_back(opParam("POINT", "UNITS", pv("s1"), "d1", false, L));
         A.push_back(opParam("newg", "x", pv("f1"), "d1", false, L));
         for (auto g : {"G2", "G3", "G4", "G5", "G6", "G7"}) A.push_back(opParamFromStored(g, L));
+        for (auto src : {"B3", "B22", "S42", "F23"}) { A.push_back(opParamCopyOfStored("EXTRA", src, "NEWG", "X")); A.push_back(opParamCopyOfStored("EXTRA", src, "POINT", "Y")); }
         for (auto g : {"POINT", "NEWG", "G2", "NOPE"}) { A.push_back(opLock(g, true)); A.push_back(opLock(g, false)); }
         A.push_back(opParamBad("NEWB", true, false)); A.push_back(opParamBad("POINT", false, true)); A.push_back(opParamBad("POINT", true, false));
         A.push_back(opParamMandatoryBad("POINT", "RATE", "string")); A.push_back(opParamMandatoryBad("POINT", "USED", "float")); A.push_back(opParamMandatoryBad("ANALOG", "USED", "empty-int"));
@@ -142,7 +144,7 @@ int main(int argc, char** argv) {
     // root ops: objects loaded from generated files (load-then-edit states), enabled in the initial state only
     {
         std::vector<std::pair<std::string, std::string>> roots;
-        if (alphabet == "frames") roots = {{"events", "events=2;first=5"}, {"noanalog", "agroup=empty;chans=0;points=1"}};
+        if (alphabet == "frames") roots = {{"events", "events=2;first=5"}, {"noanalog", "agroup=empty;chans=0;points=1"}, {"first3", "first=3;chans=0"}};   // first frame number 3: header window 2..3 overlaps the indices count, count+1
         if (alphabet == "mut") roots = {{"events", "events=2;first=5"}, {"sparse", "ids=sparse;extra=all;order=paramsFirst"}, {"zeros", "zeros=7;prologue=0000;frames=1"}, {"noanalog", "agroup=empty;chans=0;points=1"}};
         if (alphabet == "build") roots = {{"events", "events=18;first=705"}, {"extra", "extra=all;descs=d127;locks=yes"}, {"str1d", "extra=str1d;ids=swapped"}, {"labels", "labels=more;alabels=fewer;points=3"}, {"noanalog", "agroup=empty;chans=0"}};
         if (alphabet == "params") roots = {{"described", "extra=all;locks=yes"}, {"sparse", "ids=sparse"}};
